@@ -1,5 +1,10 @@
 use std::process;
+#[cfg(not(feature = "verif-sim"))]
 use std::time::{Duration, Instant};
+#[cfg(feature = "verif-sim")]
+use std::time::Duration;
+#[cfg(feature = "verif-sim")]
+use crate::common::simio::Instant;
 
 use crate::blockchain::parser::chain::ChainStorage;
 use crate::blockchain::proto::block::Block;
